@@ -3,6 +3,8 @@ package c02
 import (
 	"context"
 	"fmt"
+	"sort"
+	"strings"
 
 	"github.com/cloudwego/eino/compose"
 	"github.com/cloudwego/eino/schema"
@@ -117,4 +119,259 @@ func keyedZeroCase(ctx context.Context, rep *mon.Reporter, rng *mon.Rand) {
 	}
 	rep.NonTrivial(fmt.Sprintf("keyedzero|%v|%v|%s", keyed, mapped, pick))
 	_ = schema.ErrNoValue
+}
+
+// keyedStaticCase widens keyedZeroCase by static values (finding keyed-static-skipped-input): the node x,
+// field-mapped from predecessors that a branch skips, also has SetStaticValue at PRNG-chosen paths - at
+// another key j of its map input (x never reads it), below its input key k (the control: the static value
+// names the key itself), at both, below j - or none. x must run on {k: zero} merged with the static values
+// in all four paradigms, exactly as it does when the predecessors ran (then with their values merged in).
+//
+//	shape A  x: string -> string, WithInputKey("k"), mapped ToField("k")
+//	shape B  x: map[string]any -> string, WithInputKey("k"), mapped ToFieldPath{"k","y"} (and {"k","y2"})
+//	shape C  x: map[string]any -> string, no input key, mapped ToField("k") (static values are visible)
+//
+// x becomes ready through a control-only dependency on the branch source (predecessors data-only), or takes
+// control+data from its predecessor and a control-only dependency on the other branch target.
+type keyedStatic struct {
+	Shape   string     `json:"shape"`
+	Static  [][]string `json:"static_value_paths"`
+	Ctl     string     `json:"control"`
+	Two     bool       `json:"two_mapped_predecessors"`
+	XStream bool       `json:"x_is_a_transform_lambda"`
+	Pick    string     `json:"branch_picks"`
+}
+
+func renderAny(v any) string {
+	switch t := v.(type) {
+	case map[string]any:
+		ks := make([]string, 0, len(t))
+		for k := range t {
+			ks = append(ks, k)
+		}
+		sort.Strings(ks)
+		var b strings.Builder
+		b.WriteString("{")
+		for i, k := range ks {
+			if i > 0 {
+				b.WriteString(",")
+			}
+			b.WriteString(k + "=" + renderAny(t[k]))
+		}
+		b.WriteString("}")
+		return b.String()
+	case nil:
+		return "{}" // the zero value of a map input
+	}
+	return fmt.Sprint(v)
+}
+
+func keyedStaticCase(ctx context.Context, rep *mon.Reporter, rng *mon.Rand) {
+	c := keyedStatic{Shape: []string{"A", "A", "B", "B", "C"}[rng.Intn(5)], Ctl: []string{"dependency-on-branch-source", "dependency-on-other-target"}[rng.Intn(2)], Pick: []string{"p", "q", "q"}[rng.Intn(3)]}
+	var opts [][][]string
+	switch c.Shape {
+	case "A":
+		opts = [][][]string{{{"j"}}, {{"j"}}, {{"j", "z"}}, {{"j"}, {"m"}}, {}}
+	case "B":
+		opts = [][][]string{{{"j"}}, {{"j"}}, {{"k", "x"}}, {{"j"}, {"k", "x"}}, {{"j", "z"}, {"k", "x"}}, {{"j", "z"}}, {}}
+		c.Two = rng.Prob(0.4)
+	default:
+		opts = [][][]string{{{"j"}}, {{"j", "z"}}, {{"j"}, {"m"}}}
+	}
+	c.Static = opts[rng.Intn(len(opts))]
+	c.XStream = c.Shape == "A" && rng.Prob(0.3)
+
+	wf := compose.NewWorkflow[string, map[string]any]()
+	lam := func(tag string) *compose.Lambda {
+		return compose.InvokableLambda(func(_ context.Context, in string) (string, error) { return in + tag, nil })
+	}
+	wf.AddLambdaNode("a", lam("a")).AddInput(compose.START)
+	wf.AddLambdaNode("p", lam("p")).AddInputWithOptions("a", nil, compose.WithNoDirectDependency())
+	wf.AddLambdaNode("q", lam("q")).AddInputWithOptions("a", nil, compose.WithNoDirectDependency())
+	pick := c.Pick
+	wf.AddBranch("a", compose.NewGraphBranch(func(context.Context, string) (string, error) { return pick, nil }, map[string]bool{"p": true, "q": true}))
+	var xopts []compose.GraphAddNodeOpt
+	if c.Shape != "C" {
+		xopts = append(xopts, compose.WithInputKey("k"))
+	}
+	var x *compose.WorkflowNode
+	switch {
+	case c.Shape == "A" && c.XStream:
+		x = wf.AddLambdaNode("x", compose.TransformableLambda(func(_ context.Context, in *schema.StreamReader[string]) (*schema.StreamReader[string], error) {
+			var b strings.Builder
+			for {
+				s, err := in.Recv()
+				if err != nil {
+					in.Close()
+					if err.Error() != "EOF" {
+						return nil, err
+					}
+					break
+				}
+				b.WriteString(s)
+			}
+			return schema.StreamReaderFromArray([]string{b.String(), "x"}), nil
+		}), xopts...)
+	case c.Shape == "A":
+		x = wf.AddLambdaNode("x", lam("x"), xopts...)
+	default:
+		x = wf.AddLambdaNode("x", compose.InvokableLambda(func(_ context.Context, in map[string]any) (string, error) {
+			return renderAny(in) + "x", nil
+		}), xopts...)
+	}
+	var to [][]string // target paths of the mappings from p (and pp)
+	switch c.Shape {
+	case "A", "C":
+		to = [][]string{{"k"}}
+	default:
+		to = [][]string{{"k", "y"}}
+		if c.Two {
+			to = append(to, []string{"k", "y2"})
+		}
+	}
+	srcs := []string{"p", "pp"}
+	if len(to) == 2 {
+		wf.AddLambdaNode("pp", lam("pp")).AddInput("p")
+	}
+	for i, path := range to {
+		fm := []*compose.FieldMapping{compose.ToFieldPath(compose.FieldPath(path))}
+		if c.Ctl == "dependency-on-branch-source" {
+			x.AddInputWithOptions(srcs[i], fm, compose.WithNoDirectDependency())
+		} else {
+			x.AddInput(srcs[i], fm...)
+		}
+	}
+	if c.Ctl == "dependency-on-branch-source" {
+		x.AddDependency("a")
+	} else {
+		x.AddDependency("q")
+	}
+	other, below := false, false
+	for _, path := range c.Static {
+		x.SetStaticValue(compose.FieldPath(path), "st"+path[len(path)-1])
+		if path[0] == "k" {
+			below = true
+		} else {
+			other = true
+		}
+	}
+	wf.End().AddInput("x", compose.ToField("x"))
+	cls := "no-static-value"
+	switch {
+	case c.Shape == "C":
+		cls = "static-value-no-input-key"
+	case other && below:
+		cls = "static-values-at-another-key-and-below-the-input-key"
+	case other:
+		cls = "static-value-at-another-key"
+	case below:
+		cls = "static-value-below-the-input-key"
+	}
+	r, err := wf.Compile(ctx)
+	if err != nil {
+		rep.Violation(ID+"/keyed-zero-input/build-error/"+cls, fmt.Sprintf("%v\n%+v", err, c), c)
+		return
+	}
+	// ---- the expected input of x
+	ran := c.Pick == "p"
+	all := map[string]any{}
+	set := func(path []string, v any) {
+		m := all
+		for _, k := range path[:len(path)-1] {
+			n, _ := m[k].(map[string]any)
+			if n == nil {
+				n = map[string]any{}
+				m[k] = n
+			}
+			m = n
+		}
+		m[path[len(path)-1]] = v
+	}
+	for _, path := range c.Static {
+		set(path, "st"+path[len(path)-1])
+	}
+	if ran {
+		vals := []string{"iap", "iappp"}
+		for i, path := range to {
+			set(path, vals[i])
+		}
+	}
+	var want string
+	switch c.Shape {
+	case "A":
+		s, _ := all["k"].(string) // "" = the zero value
+		want = s + "x"
+	case "B":
+		want = renderAny(all["k"]) + "x"
+	default:
+		want = renderAny(all) + "x"
+	}
+	for _, form := range []string{"invoke", "stream", "collect", "transform"} {
+		var got map[string]any
+		var rerr error
+		drain := func(sr *schema.StreamReader[map[string]any]) {
+			got = map[string]any{}
+			for {
+				ch, err := sr.Recv()
+				if err != nil {
+					if err.Error() != "EOF" {
+						rerr = err
+					}
+					break
+				}
+				for k, v := range ch {
+					if s, ok := v.(string); ok {
+						o, _ := got[k].(string)
+						got[k] = o + s
+					}
+				}
+			}
+			sr.Close()
+		}
+		p := mon.Safe(func() {
+			switch form {
+			case "invoke":
+				got, rerr = r.Invoke(ctx, "i")
+			case "collect":
+				got, rerr = r.Collect(ctx, schema.StreamReaderFromArray([]string{"i"}))
+			case "stream":
+				sr, err := r.Stream(ctx, "i")
+				if err != nil {
+					rerr = err
+					return
+				}
+				drain(sr)
+			default:
+				sr, err := r.Transform(ctx, schema.StreamReaderFromArray([]string{"i"}))
+				if err != nil {
+					rerr = err
+					return
+				}
+				drain(sr)
+			}
+		})
+		rep.AddEvaluations(1)
+		rep.Count("keyed_static_runs", 1)
+		rep.Count("keyed_static_runs_"+cls, 1)
+		if p != nil {
+			rep.Violation(ID+"/keyed-zero-input/panic/"+cls, fmt.Sprintf("%s: %s\n%+v", form, p.Value, c), c)
+			return
+		}
+		pc := "data-predecessor-skipped"
+		if ran {
+			pc = "data-predecessor-ran"
+		}
+		if rerr != nil {
+			rep.Violation(ID+"/keyed-zero-input/run-failed/"+pc+"/"+cls, fmt.Sprintf("%s: %v\nexpected x to run and END to receive {x: %q}\n%+v", form, rerr, want, c), c)
+			return
+		}
+		if fmt.Sprint(got["x"]) != want {
+			rep.Violation(ID+"/keyed-zero-input/wrong-result/"+pc+"/"+cls, fmt.Sprintf("%s: got %v, want {x: %q}\n%+v", form, got, want, c), c)
+			return
+		}
+	}
+	if !ran {
+		rep.Count("keyed_static_cases_with_skipped_predecessors_"+cls, 1)
+	}
+	rep.NonTrivial("keyedstatic|" + mon.Canon(c))
 }
